@@ -115,6 +115,18 @@ CHECKS = {
             'Trusted: refpipe() and the reference stages in vf/props/c17.py (own chunked/windowed/split/unique, not boltons). '
             'Bounds: <= 4 stages (+3 in builder histories), parameters <= 7, k <= 10 outputs, pull budget 3000.',
             'DESIGN.md section 4 / C17'),
+    'C13': ('Hypothesis-generated registration/lookup histories over a fresh 20-class family (chains, diamond, mixin, ABC virtual '
+            'subclass, metaclass duck type, slot-only / dict-bearing / iterable classes, builtin subclasses) replayed on '
+            'Glommer(), a bare Glommer and the module-level registry (forked child), vs a validity predicate over the '
+            'admissible set of nearest registered types',
+            'Model-based generated histories: after every register() every class is looked up for every operation (so stale '
+            'memo entries are observable), warm-up lookups precede registrations, the handler that ran must be registered '
+            'for a minimal admissible type, exact beats ancestors, bystander registries must be unaffected, and a default '
+            'Glommer must agree with module-level glom on a pool of access / assign / delete cases.',
+            'Trusted: Model.admissible() in vf/props/c13.py. Known finding F14 (internal duck types capture iterable / '
+            'dict-bearing instances) is counted and skipped so that histories continue behind it. Unrelated registered bases: '
+            'either handler accepted. Bounds: <= 6 registrations per history.',
+            'DESIGN.md section 4 / C13'),
 }
 
 NOT_YET = 'check not built yet in this session (design in DESIGN.md section 4); will be claimed once its check is quiet on the unchanged tree'
